@@ -114,6 +114,14 @@ class SchedSession(Session):
         return None
 
 
+def _collect():
+    """The cyclic garbage collector is switched off inside a run (its timing is not ours to
+    decide); where the workload drops objects it is run explicitly, so that finalizers of
+    unreachable cycles (a half-built writer and its lock object) run at a point the seed decides."""
+    import gc
+    gc.collect()
+
+
 class SchedWriter(HistActor):
     """A writer actor: list of transactions."""
 
@@ -125,6 +133,10 @@ class SchedWriter(HistActor):
         self.violation = None
         self.attempts = []   # lock attempts: dicts
         self.held = []       # [acquired_seq, released_seq, generation or None]
+        # an application may keep the exceptions it caught (a log, a list of failures): with their
+        # tracebacks they keep the failed writer and its lock object alive. "none" | "next" | "end"
+        self.keep_errors = "none"
+        self.kept = []
 
     def ensure_index(self):
         if self.ix is None:
@@ -134,7 +146,13 @@ class SchedWriter(HistActor):
     def body(self):
         try:
             for tx in self.txs:
+                if self.keep_errors == "next" and self.kept and self.w is None:
+                    pass
                 self.run_tx(tx)
+            if self.kept:
+                self.s.k.event("step", "drop_kept_errors")
+                self.kept = []
+                _collect()
         except Violation as v:
             self.violation = v
         except (SimAbort, SimKilled):
@@ -154,13 +172,20 @@ class SchedWriter(HistActor):
         t0 = k.time()
         att = {"actor": self.name, "a": a, "t0": t0, "timeout": timeout, "delay": kw["delay"]}
         self.attempts.append(att)
+        if self.keep_errors == "next" and self.kept:
+            k.event("step", "drop_kept_errors")
+            self.kept = []
+            _collect()
         try:
             w = ix.writer(**kw)
-        except LockError:
+        except LockError as e:
             att["outcome"] = "LockError"
             att["b"] = k.seq
             att["t1"] = k.time()
             s.count("lockerror")
+            if self.keep_errors != "none":
+                self.kept.append(e)
+                s.count("lockerror_kept")
             return
         except (SimAbort, SimKilled, HarnessError):
             raise
